@@ -17,6 +17,8 @@ contract(
         "self.scope._maps[3] is self.counters",
         # the globals chain is the very object the caller passed, empty or not (the render tag fills its namespace later)
         "self.globals is global_data",
+        # a context built directly (not by copy()) is the root of its render: its global data is the render's global data
+        "self.root_globals is self.globals and self.root_globals is not None",
         # per-render state starts empty
         "len(self.locals) == 0 and len(self.counters) == 0 and len(self.loops) == 0",
         "len(self.tag_namespace['cycles']) == 0 and len(self.tag_namespace['stopindex']) == 0 and len(self.tag_namespace['macros']) == 0",
